@@ -22,6 +22,23 @@ HasUnion(T) == LET RECURSIVE has(_)
                                [] OTHER -> FALSE
                IN has(T)
 
+\* a union whose members have the same shape (lists / options / records alike, leaf dtypes aside) behaves, for everything
+\* that does not look at dtypes, like an array of its first member's type: Collapse replaces such unions by that member
+RECURSIVE Skel(_)
+Skel(U) == CASE U.k \in {"var", "opt"} -> [k |-> U.k, x |-> Skel(U.x)]
+             [] U.k = "reg" -> [k |-> "reg", n |-> U.n, x |-> Skel(U.x)]
+             [] U.k = "rec" -> [k |-> "rec", ks |-> U.ks, xs |-> [j \in 1..Len(U.xs) |-> Skel(U.xs[j])]]
+             [] U.k = "union" -> [k |-> "union", xs |-> [j \in 1..Len(U.xs) |-> Skel(U.xs[j])]]
+             [] U.k = "num" -> [k |-> "num"]
+             [] OTHER -> U
+RECURSIVE Collapse(_)
+Collapse(U) == CASE U.k \in {"var", "reg", "opt"} -> [U EXCEPT !.x = Collapse(U.x)]
+                 [] U.k = "rec" -> [U EXCEPT !.xs = [j \in 1..Len(U.xs) |-> Collapse(U.xs[j])]]
+                 [] U.k = "union" -> LET ms == [j \in 1..Len(U.xs) |-> Collapse(U.xs[j])] IN
+                                     IF Len(ms) > 0 /\ \A j \in 1..Len(ms) : Skel(ms[j]) = Skel(ms[1]) /\ ms[j].k \in {"var", "reg", "num"}
+                                     THEN ms[1] ELSE [U EXCEPT !.xs = ms]
+                 [] OTHER -> U
+
 Reaches(T, axis, depth) ==            \* can `axis` be resolved and found at or below this node?
   LET RECURSIVE go(_, _, _)
       go(U, ax, d) ==
